@@ -194,7 +194,7 @@ def run_scene(ctx, sc, check_model=True):
             if d["reduce"]:
                 wts = np.asarray(det._cached_cell_volume_weights)
                 e = (exp * wts[None, None]).sum(axis=(2, 3, 4)) / wts.sum()
-            bad = got.shape != e.shape or not err_ok(got, e, tol_of(d))
+            bad = got.shape != e.shape or not err_ok(got, e, tol_of(d), scale=nz)      # nz: size of the unreduced phasors
             if bad and detail is None:
                 detail = (f"PhasorDetector p{i} state differs from the windowed DFT of the FieldDetector history: "
                           f"max |diff| {maxdiff(got, e):.3e} of max |expected| {np.max(np.abs(e)):.3e} ({describe(d, stride)})")
